@@ -40,8 +40,17 @@ func isIntrinsicName(fn *ssa.Function) bool {
 	return false
 }
 
+// isSyncIntrinsic: operations before which a pre-emption is explored. Mutex acquisitions and
+// releases are not among them: a pre-emption is explored right *after* every release instead
+// (isReleaseIntrinsic), which — code between synchronisation points being local under the
+// race-freedom assumption — covers the same interleavings with half the scheduling points.
 func isSyncIntrinsic(fn *ssa.Function) bool {
 	s := fn.String()
+	switch s {
+	case "(*sync.Mutex).Lock", "(*sync.Mutex).Unlock", "(*sync.RWMutex).Lock", "(*sync.RWMutex).Unlock",
+		"(*sync.RWMutex).RLock", "(*sync.RWMutex).RUnlock", "(*sync.Pool).Get", "(*sync.Pool).Put":
+		return false
+	}
 	return strings.HasPrefix(s, "(*sync.") || strings.HasPrefix(s, "sync/atomic.") || strings.HasPrefix(s, "(*sync/atomic.") ||
 		fn.Name() == "verifYield"
 }
